@@ -100,6 +100,27 @@ def run(tier, rng, C):
     for i in range(n // 3):
         inv, _, _ = G.include_graph_inv(rng, cyclic=(i % 2 == 0), missing=0.1, sel_override=0.3, sel_relative=0.3)
         add(inv, G.op_node('n0') if i % 4 else 'all')
+    # (b1) layered parameter trees with references (one class per layer), consumed by member lookups that walk
+    # through whatever the layers hold at a key (scalars, text, containers, references, nulls): a lookup through
+    # a value that is no mapping is an error, through layered values it renders them on the fly
+    for i in range(n // 3):
+        layers = V.ref_stack(rng, rng.randint(2, 4), rng.randint(1, 3), markers=0.1, p=0.25)
+        if i % 3 == 0:
+            # one key holding plain text / scalars / nulls in several layers
+            k0 = rng.choice(V.KEYS)
+            layers = [('m', [(kk, vv) for kk, vv in l[1] if kk[1:] != S(k0)[1:]] +
+                       [(S(k0), rng.choice([S('hello'), S('bye'), I(3), N, B(True), S('${kx}'), M(('text', S('t')))]))]) for l in layers]
+        inv = G.Inv()
+        names = []
+        for j, l in enumerate(layers):
+            inv.classes[('l%d.yml' % j,)] = G.doc([], [], l)
+            names.append('l%d' % j)
+        inv.universe.update(names)
+        keys = sorted({k[1].lstrip('~=') for l in layers for k, _ in l[1] if k[0] == 's' and k[1].lstrip('~=')})
+        looks = [(S('look%d' % q), S(rng.choice(['${%s:%s}', '<${%s:%s}>', '${%s:%s:a}']) % (rng.choice(keys), rng.choice(V.KEYS + ['text']))))
+                 for q in range(rng.randint(1, 4))] if keys else []
+        inv.nodes[('n.yml',)] = G.doc(names, [], ('m', looks))
+        add(inv, G.op_node('n') if i % 4 else 'all')
     # (b2) include loops whose classes are all entered through reference-bearing entries
     for i in range(n // 6):
         inv = G.Inv()
@@ -198,7 +219,7 @@ def run(tier, rng, C):
         return fails
     rule = ('inventories run in the harness with panic capture and process-death attribution: %d AST-level fuzz inventories (tags, '
             'one key spelled twice through markers, container keys, malformed reference text, wrong shapes of classes / '
-            'applications / parameters / document), %d structured inventories incl. cyclic include graphs, %d byte-level files '
+            'applications / parameters / document), %d structured inventories incl. cyclic include graphs, as many layered parameter trees with references consumed by member lookups through whatever the layers hold, %d byte-level files '
             '(invalid YAML, anchors/aliases/billion-laughs, merge keys, tags, BOM, non-UTF-8, random bytes), deep-but-finite inputs '
             '(reference nesting 10..20000, YAML nesting 10..2000, include chains 10..3000) and file-system faults between '
             'construction and rendering (delete, replace by directory, garbage, truncate); oracle: outcome is a value or an error; '
